@@ -7,7 +7,7 @@ replay), tied to the real cdc.Service + db.CDCStreamer + Bolt FIFO + HTTP sink b
 correspondence run.
 -/
 import RqModel.Model.Cdc
-import RqModel.Lemmas.Cdc6
+import RqModel.Lemmas.Cdc7
 namespace C25
 open RqModel.Cdc RqModel.Fifo
 
@@ -146,6 +146,55 @@ theorem at_least_once_partial (b : Nat) (ops : List Op) (hb : 0 < b) (hwf : wfOp
   | hwm _ => simp at hcop
   | tick => simp at hcop
   | restart => simp at hcop
+
+/-- **Within one tenure the POSTs are in strictly increasing key order** (the key of a
+POST is the highest log index it carries). `pre` is any earlier history; `seg` any stretch
+of operations without a leadership change or restart — entries, timer firings, snapshots,
+outages, HWM broadcasts and ticks in any order. No exclusion is needed: this also holds
+for multi-statement entries. -/
+theorem nondecreasing_within_tenure (b : Nat) (pre seg : List Op)
+    (hseg : ∀ op ∈ seg, (∀ x, op ≠ .leader x) ∧ op ≠ .restart) :
+    ∃ D : List (Nat × Batch),
+      (run { batchSz := b } (pre ++ seg)).delivered = (run { batchSz := b } pre).delivered ++ D ∧
+      (D.map (·.1)).Pairwise (· < ·) := by
+  rw [run_append]
+  obtain ⟨D, h1, h2, _, _⟩ := run_deliveries (run { batchSz := b } pre) seg hseg
+  exact ⟨D, h1, h2⟩
+
+/-! ### what a HWM broadcast promises -/
+
+/-- THE FULL STATEMENT for the node's own broadcasts (false, see the witness): whenever this
+node has broadcast HWM `h`, every change at or below `h` has been delivered (here, or
+according to another node's announcement). Other nodes prune their queues on the strength
+of this promise, so at-least-once across leader changes rests on it. -/
+def broadcast_truthful_full : Prop :=
+  ∀ (b : Nat) (ops : List Op), 0 < b → wfOps 0 ops →
+    ∀ h ∈ (run { batchSz := b } ops).broadcasts, ∀ c ∈ changesOf ops, c.1 ≤ h →
+      deliveredB (run { batchSz := b } ops) c = true ∨ c.1 ≤ (run { batchSz := b } ops).maxIn
+
+/-- After a restart `NewService` sets the HWM to (first FIFO key - 1). With batch size 2 the
+entries 5 and 6 sit in ONE item keyed 6, so the restarted node believes 5 is done; as
+leader with the endpoint down its ticker broadcasts 5 although change 5.0 was never sent. -/
+theorem broadcast_truthful_witness : ¬ broadcast_truthful_full := by
+  intro h
+  have := h 2 [.entry ⟨5, false, [1]⟩, .entry ⟨6, false, [1]⟩, .restart, .endpoint false, .leader true, .tick]
+    (by decide) (by simp [wfOps, single, nonEmptyStmts]) 5 (by decide) (5, 0) (by decide) (by decide)
+  revert this
+  decide
+
+/-- the same with the ghost field spelled out: `maxHwmIn ops` is the highest HWM another
+node announced during the history -/
+theorem at_least_once_partial' (b : Nat) (ops : List Op) (hb : 0 < b) (hwf : wfOps 0 ops) :
+    ∀ c ∈ changesOf ops,
+      deliveredB (run { batchSz := b } (ops ++ heal)) c = true ∨ c.1 ≤ maxHwmIn ops := by
+  intro c hc
+  rcases at_least_once_partial b ops hb hwf c hc with h | h
+  · exact Or.inl h
+  · right
+    rw [run_maxIn] at h
+    have : maxHwmIn (ops ++ heal) = maxHwmIn ops := by
+      rw [maxHwmIn_append]; simp [heal, maxHwmIn]
+    simpa [this] using h
 
 /-- the exclusion is decidable and the hypotheses are satisfiable by a history with an
 outage, a step-down during the retry, a restart, a snapshot and a foreign HWM -/
